@@ -49,6 +49,13 @@ func (w *World) Reload(l *ipfslog.IPFSLog, loader string, ident int, lo *LoadOpt
 	if len(heads) == 0 {
 		return nil, nil
 	}
+	if w.ReuseOptions && w.Codec != "pb" {
+		// the caller that keeps ONE options value around has used it before - for a load of an OLDER state of this log
+		// (its first entry): nothing of that load may stick to the value
+		if vs := l.Values().Slice(); len(vs) >= 2 && vs[0] != nil {
+			_, _ = w.LoadHash(vs[0].GetHash(), ident, &LoadOpts{NoExplicit: true})
+		}
+	}
 	switch loader {
 	case "manifest":
 		c, err := l.ToMultihash(w.Ctx)
